@@ -7,8 +7,10 @@ mod fam_c;
 mod fam_d;
 mod fam_e;
 mod fam_f;
+mod fam_g;
 mod fam_h;
 mod fam_i;
+mod fam_k;
 mod hist;
 mod json;
 mod oracle_a;
@@ -54,8 +56,11 @@ fn family_props(f: &str) -> &'static [&'static str] {
         "D" => &["C09", "C10", "C14", "C16", "C03"],
         "E" => &["C11", "C01", "C18"],
         "F" => &["C12"],
+        "G" => &["C13"],
+        "W" => &["C09", "C11", "C13", "C14"],
         "H" => &["C17"],
         "I" => &["C16"],
+        "K" => &["C19"],
         _ => &[],
     }
 }
@@ -68,8 +73,11 @@ fn run_one(family: &str, seed: u64, tiny: bool, focus: &str, base_seed: u64, ind
         "D" => fam_d::run(seed, tiny, focus),
         "E" => fam_e::run(seed, tiny, focus),
         "F" => fam_f::run(base_seed, index, tiny),
+        "G" => fam_g::run(seed, tiny, thorough),
+        "W" => fam_g::run_witness(seed, index),
         "H" => fam_h::run(base_seed, index, tiny, thorough),
         "I" => fam_i::run(index, tiny),
+        "K" => fam_k::run(seed, tiny, focus),
         _ => panic!("unknown family {}", family),
     }
 }
